@@ -19,6 +19,7 @@ func main() {
 	flag.StringVar(&o.Dump, "dump", "", "debug: dump a model (commands, graph, loud, rules)")
 	flag.StringVar(&o.Mutation, "mutation", "", "internal: apply this mutation id as overlay and report whether the rules fire")
 	flag.StringVar(&o.MutSummary, "mutation-summary", "", "file with the corpus results to embed in the evidence (thorough tier)")
+	flag.StringVar(&o.Patch, "patch", "", "analyse the tree with this unified diff applied as an overlay (the tree itself is not modified)")
 	flag.BoolVar(&o.NoEvidence, "no-evidence", false, "do not write the evidence file")
 	flag.BoolVar(&o.Verbose, "v", false, "print every obligation")
 	flag.Parse()
